@@ -1,3 +1,104 @@
 // Kani harnesses (child module of crates/axmos-db/src/common/mod.rs).  See /verif/HARNESS_GUIDE.md
+// C12.config_clamp: DBConfig::new and the builder setters normalise every usize input as the doc comments say
+// (page size -> power of two in [4096, 65536]; pool_size >= 1; min_keys >= 2; cache size / siblings stored as given)
+// and never panic.  `usize::next_power_of_two` overflows for inputs > 2^63: that region is isolated.
 #![allow(unused_imports, dead_code, clippy::all)]
 use super::*;
+
+const TOP: usize = 1usize << (usize::BITS - 1); // largest input for which next_power_of_two is representable
+
+fn is_pow2(x: usize) -> bool {
+    x != 0 && x & (x - 1) == 0
+}
+/// reference: smallest power of two >= requested, clamped into [MIN_PAGE_SIZE, MAX_PAGE_SIZE]
+fn page_size_laws(requested: usize, got: usize) {
+    assert!(is_pow2(got), "page_size_power_of_two");
+    assert!(got >= MIN_PAGE_SIZE && got <= MAX_PAGE_SIZE, "page_size_in_range");
+    if requested <= MIN_PAGE_SIZE {
+        assert!(got == MIN_PAGE_SIZE, "page_size_small_request_gets_min");
+    } else if requested > MAX_PAGE_SIZE / 2 {
+        assert!(got == MAX_PAGE_SIZE, "page_size_large_request_gets_max");
+    } else {
+        assert!(got >= requested && got / 2 < requested, "page_size_rounds_up_to_next_power");
+    }
+    if is_pow2(requested) && requested >= MIN_PAGE_SIZE && requested <= MAX_PAGE_SIZE {
+        assert!(got == requested, "page_size_valid_request_kept");
+    }
+}
+fn new_laws(ps: usize) {
+    let cs: usize = kani::any();
+    let pool: usize = kani::any();
+    let mk: usize = kani::any();
+    let sib: usize = kani::any();
+    kani::cover!(true, "reach");
+    let c = DBConfig::new(ps, cs, pool, mk, sib);
+    page_size_laws(ps, c.page_size);
+    assert!(c.cache_size == cs, "new_cache_size_as_given");
+    assert!(c.pool_size == pool, "new_pool_size_as_given");
+    assert!(c.min_keys_per_page == mk, "new_min_keys_as_given");
+    assert!(c.num_siblings_per_side == sib, "new_siblings_as_given");
+}
+// @obl harness=c12_config_new id=C12.config_clamp[new] tier=quick funcs="DBConfig::new" bounds="all five usize arguments, page_size <= 2^63" assume="page_size <= 2^63 (complement of the next_power_of_two overflow region)"
+#[kani::proof]
+#[kani::unwind(2)]
+fn c12_config_new() {
+    let ps: usize = kani::any();
+    kani::assume(ps <= TOP);
+    new_laws(ps);
+}
+// @obl harness=c12_config_new_huge id=C12.config_clamp[new/huge] tier=off funcs="DBConfig::new" bounds="all five usize arguments, page_size > 2^63" assume="page_size > 2^63 (region where next_power_of_two overflows)"
+#[kani::proof]
+#[kani::unwind(2)]
+fn c12_config_new_huge() {
+    let ps: usize = kani::any();
+    kani::assume(ps > TOP);
+    new_laws(ps);
+}
+
+/// builder whose starting config is arbitrary (DBConfig::default() calls thread::available_parallelism, an OS query
+/// that is not the subject; the setters must not depend on the starting values)
+fn any_builder() -> DBConfigBuilder {
+    DBConfigBuilder {
+        config: DBConfig {
+            page_size: kani::any(),
+            cache_size: kani::any(),
+            pool_size: kani::any(),
+            num_siblings_per_side: kani::any(),
+            min_keys_per_page: kani::any(),
+        },
+    }
+}
+fn builder_laws(ps: usize) {
+    let cs: usize = kani::any();
+    let pool: usize = kani::any();
+    let mk: usize = kani::any();
+    let sib: usize = kani::any();
+    let order: bool = kani::any();
+    kani::cover!(true, "reach");
+    let c = if order {
+        any_builder().page_size(ps).cache_size(cs).pool_size(pool).min_keys_per_page(mk).num_siblings_per_side(sib).build()
+    } else {
+        any_builder().num_siblings_per_side(sib).min_keys_per_page(mk).pool_size(pool).cache_size(cs).page_size(ps).build()
+    };
+    page_size_laws(ps, c.page_size);
+    assert!(c.cache_size == cs, "builder_cache_size_as_given");
+    assert!(c.pool_size == if pool == 0 { 1 } else { pool }, "builder_pool_size_at_least_one");
+    assert!(c.min_keys_per_page == if mk < 2 { 2 } else { mk }, "builder_min_keys_at_least_two");
+    assert!(c.num_siblings_per_side == sib, "builder_siblings_as_given");
+}
+// @obl harness=c12_config_builder id=C12.config_clamp[builder] tier=quick funcs="DBConfigBuilder::page_size,DBConfigBuilder::cache_size,DBConfigBuilder::pool_size,DBConfigBuilder::min_keys_per_page,DBConfigBuilder::num_siblings_per_side,DBConfigBuilder::build" bounds="arbitrary starting config, all usize setter arguments (page_size <= 2^63), both setter orders" assume="page_size <= 2^63"
+#[kani::proof]
+#[kani::unwind(2)]
+fn c12_config_builder() {
+    let ps: usize = kani::any();
+    kani::assume(ps <= TOP);
+    builder_laws(ps);
+}
+// @obl harness=c12_config_builder_huge id=C12.config_clamp[builder/huge] tier=off funcs="DBConfigBuilder::page_size" bounds="arbitrary starting config, page_size > 2^63" assume="page_size > 2^63 (region where next_power_of_two overflows)"
+#[kani::proof]
+#[kani::unwind(2)]
+fn c12_config_builder_huge() {
+    let ps: usize = kani::any();
+    kani::assume(ps > TOP);
+    builder_laws(ps);
+}
